@@ -15,6 +15,7 @@
 //	restart             RestartRoutine()
 //	setstate <v> | setsr <f> | swap <k|nil> | getstate                  (state only)
 //	waitexited <r>      WaitExited(own ctx, returnIfNotRunning r, nil) in its own goroutine
+//	waitexitedc <r>     the same with a context that is already cancelled when WaitExited is called
 //	cancelw <i>         cancel the context of the i-th waitexited step
 //	cancelroot <c>      cancel root context c
 //	async <step>        run an API step (setctx … getstate) from a new actor goroutine
@@ -27,6 +28,7 @@
 //	probe               probe contexts of running instances and all returned wait channels
 //	pause | settle      short sleep / wait until the log is quiet (not logged)
 //	quiesce | advance   wait for quiet longer than the grace period and every retry delay, log the quiescence line
+//	                    `quiesce <pending calls> / <executing instances> / <those with a live context>`
 package routine
 
 import (
@@ -586,12 +588,16 @@ func exec(state bool) func(script []string, opt comp.Options) comp.Result {
 					return
 				}
 				switch f[0] {
-				case "waitexited":
+				case "waitexited", "waitexitedc":
 					r := len(f) > 1 && f[1] != "0"
 					ctx, cancel := context.WithCancel(context.Background())
 					w := &wcall{cancel: cancel}
 					w.id = log.Inv("waitexited %d", b2i(r))
 					wcalls = append(wcalls, w)
+					if f[0] == "waitexitedc" {
+						log.Add("env cancelw %d", w.id)
+						cancel()
+					}
 					actors.Add(1)
 					go func() {
 						defer actors.Done()
@@ -723,6 +729,13 @@ func exec(state bool) func(script []string, opt comp.Options) comp.Result {
 						parts = append(parts, "/")
 						for _, in := range h.insts {
 							if !in.outLog {
+								parts = append(parts, strconv.Itoa(in.k))
+							}
+						}
+						// … and those of them whose context is live at this very moment
+						parts = append(parts, "/")
+						for _, in := range h.insts {
+							if !in.outLog && in.ctx.Err() == nil {
 								parts = append(parts, strconv.Itoa(in.k))
 							}
 						}
@@ -953,7 +966,11 @@ func gen(state bool) func(rng *rand.Rand, tier string) []string {
 			case r < 58:
 				out = append(out, fmt.Sprintf("cancelroot %d", 1+rng.Intn(2)))
 			case r < 64:
-				out = append(out, fmt.Sprintf("waitexited %d", rng.Intn(2)))
+				if rng.Intn(4) == 0 {
+					out = append(out, fmt.Sprintf("waitexitedc %d", rng.Intn(2)))
+				} else {
+					out = append(out, fmt.Sprintf("waitexited %d", rng.Intn(2)))
+				}
 				nwait++
 			case r < 67 && nwait > 0:
 				out = append(out, fmt.Sprintf("cancelw %d", rng.Intn(nwait)))
@@ -1004,7 +1021,9 @@ func init() {
 			{"cfg plain 0 0 2", "setctx 1 0", "setroutine 1", "settle", "setroutine 2", "clearctx", "setctx 2 0", "restart", "probe", "settle", "exit old err 1", "quiesce", "exit old ok", "quiesce"},
 			// restart rules without retry: a failed routine is not re-run by SetContext(restart=false) but by restart=true;
 			// a successful one by neither, only by RestartRoutine
-			{"cfg plain 0 0 1", "setctx 1 0", "setroutine 1", "settle", "exit old err 2", "settle", "setctx 2 0", "settle", "quiesce", "setctx 2 1", "settle", "exit old ok", "settle", "quiesce", "setctx 1 0", "settle", "setctx 1 1", "settle", "quiesce", "restart", "settle", "exit old ok", "quiesce"},
+			{"cfg plain 0 0 1", "setctx 1 0", "setroutine 1", "settle", "exit old err 2", "settle", "setctx 2 0", "settle", "quiesce", "setctx 2 1", "settle", "exit old ok", "settle", "quiesce", "setctx 1 0", "settle", "setctx 1 1", "settle", "setctx 2 1", "settle", "quiesce", "restart", "settle", "exit old ok", "quiesce"},
+			// WaitExited with an already cancelled caller context must not disturb the container; ClearContext then stops the instance
+			{"cfg plain 0 0 0", "setctx 1 0", "setroutine 1", "settle", "waitexitedc 0", "waitexitedc 1", "settle", "clearctx", "settle", "probe", "quiesce", "exit old ctx", "quiesce"},
 			// retry with backoff: error, retry, error, retry, stop; restart; success resets
 			{"cfg plain 0 1 2 dds 3", "setctx 1 0", "setroutine 1", "settle", "exit old err 1", "advance", "exit old err 2", "advance", "exit old err 3", "advance", "restart", "settle", "exit old ok", "advance", "restart", "settle", "exit old err 1", "advance", "exit old ok", "quiesce"},
 			// WaitExited around exits and supersession
